@@ -250,7 +250,7 @@ def c05(tier, seed):
 
 
 def c06(tier, seed):
-    runs06 = fb_plan(tier, seed, "h_sync", "sem", ["MAINT_PUBLISH", "MPMC_PUSH_MID", "WAIT_MPMC", "SWITCH_PRE", "SWITCH_POST", "SCHEDULED", "SEM_POST_MID"], 24, 150, tsan=True)
+    runs06 = fb_plan(tier, seed, "h_sync", "sem", ["MAINT_PUBLISH", "MPMC_PUSH_MID", "WAIT_MPMC", "SWITCH_PRE", "SWITCH_POST", "SCHEDULED", "SEM_POST_MID"], 48, 200, tsan=True)
     for r in runs06:
         if r.variant == "tsan":
             r.args["mutexlike"] = 1
@@ -262,7 +262,7 @@ def c06(tier, seed):
 
 
 def c07(tier, seed):
-    return dict(runs=fb_plan(tier, seed, "h_sync", "rwlock", RW_STALLS, 24, 150, tsan=True),
+    return dict(runs=fb_plan(tier, seed, "h_sync", "rwlock", RW_STALLS, 45, 200, tsan=True),
                 rule=TRIAL_RULE + "Oracles: writer alone (atomic occupancy of readers/writers on entry and exit), shared data unchanged during a read "
                 "section, try variants never context-switch, state word 0 at the end, stranded waiter at quiescence.",
                 min_events={"rw_read_sections_shared_with_other_readers": 10, "rw_write_sections": 50, "rw_trywr_fail": 1, "lib_wake_mpsc_spin_count": 1},
@@ -271,7 +271,7 @@ def c07(tier, seed):
 
 def c12(tier, seed):
     q = tier == "quick"
-    runs = fb_plan(tier, seed, "h_sync", "barrier", ["WAIT_MPSC_PRE_PUSH", "MPSC_MID", "SWITCH_PRE", "SCHEDULED", "BARRIER_LAST"], 14, 80)
+    runs = fb_plan(tier, seed, "h_sync", "barrier", ["WAIT_MPSC_PRE_PUSH", "MPSC_MID", "SWITCH_PRE", "SCHEDULED", "BARRIER_LAST"], 30, 120)
     # volume under signal-driven preemption: tens of thousands of back-to-back rounds of small barriers (windows between
     # the arrival counter update and the decisions derived from it have no hook point)
     for i, thr in enumerate((4, 8, 8, 16) if q else (2, 4, 8, 8, 16, 16)):
@@ -285,7 +285,7 @@ def c12(tier, seed):
 
 
 def c18(tier, seed):
-    return dict(runs=fb_plan(tier, seed, "h_sync", "spin", ["SPIN_TICKET", "CPU_RELAX"], 10, 60, threads_q=(2, 4, 8), threads_t=(2, 3, 4, 8, 16),
+    return dict(runs=fb_plan(tier, seed, "h_sync", "spin", ["SPIN_TICKET", "CPU_RELAX"], 20, 80, threads_q=(2, 4, 8), threads_t=(2, 3, 4, 8, 16),
                              extra=dict(livelock_prop="C18", livelock_hits=2000000000000, iters=150, watchdog_s=300), stall_every=50, tsan=True),
                 rule=TRIAL_RULE + "Spinlock used from fibers that never yield while holding it; counters preset just below 2^32. Oracles: occupancy, "
                 "now-serving values seen by holders are consecutive (mod 2^32) and equal the ticket taken, trylock neither spins nor switches, plain "
@@ -412,7 +412,7 @@ def c09(tier, seed):
 
 def c04(tier, seed):
     q = tier == "quick"
-    runs = fb_plan(tier, seed, "h_join", "join", ["MAINT_PUBLISH", "SCHEDULED", "SET_AND_WAIT", "SWITCH_PRE", "SWITCH_POST", "STEAL", "JOIN_CLAIMED", "COMPLETION_CLAIMED"], 40, 300,
+    runs = fb_plan(tier, seed, "h_join", "join", ["MAINT_PUBLISH", "SCHEDULED", "SET_AND_WAIT", "SWITCH_PRE", "SWITCH_POST", "STEAL", "JOIN_CLAIMED", "COMPLETION_CLAIMED"], 120, 500,
                    extra=dict(livelock_prop="C04", drivers=8), stall_every=3)
     k = 900
     for sc in range(8):
@@ -472,10 +472,10 @@ def c19(tier, seed):
         for st in ("mmap", "malloc", "split"):
             for suffix in ("", "_dbg"):
                 k += 1
-                runs.append(Run("ctx_%s_%s%s" % (be, st, suffix), BINARIES["h_ctx"], dict(sub="ctx", seed=S(seed, k), threads=2, trials=12 if q else 120),
+                runs.append(Run("ctx_%s_%s%s" % (be, st, suffix), BINARIES["h_ctx"], dict(sub="ctx", seed=S(seed, k), threads=2, trials=36 if q else 200),
                                 cpu=1, timeout=400, tag="ctx"))
         k += 1
-        runs.append(Run("ctx_%s_malloc_asan" % be, BINARIES["h_ctx"], dict(sub="ctx", seed=S(seed, k), threads=2, trials=10 if q else 60), cpu=1, timeout=400, tag="ctx"))
+        runs.append(Run("ctx_%s_malloc_asan" % be, BINARIES["h_ctx"], dict(sub="ctx", seed=S(seed, k), threads=2, trials=20 if q else 100), cpu=1, timeout=400, tag="ctx"))
     return dict(runs=runs,
                 rule="a case = one trial: 2..63 contexts with stack sizes from {16K,20000,37035,64K,100000,1M}, a random switch graph of 3000 checked "
                 "swaps (into fresh contexts, back to main, chains), every third trial continued by a second kernel thread; matrix {assembly, ucontext} "
